@@ -811,6 +811,179 @@ def check_filtered(res, cases):
             res.fail("corr", inp, model[k:k + 1], obs[k:k + 1], f"filter call result / filtered dispatch chain: model and implementation differ at #{k}")
 
 
+# ---------------------------------------------------------------- the event table and the stored data (Model/EventsTable.lean)
+TABLE_HELP = """case text `table <op>*`: ce:<n> create_event | se:<n> set_event | st:<n>:<v> await dispatch (no subscribers) | sn:<n>:<v> dispatch_nowait |
+ld:<n>=<v>,.. load_nowait | la:<n>=<v>,.. await load | w:<n>:<t|u>:<g|w> a task awaiting get / wait_for (t: timeout 1 s) | adv the clock moves 2 s |
+ca:<j> cancel waiter task j.  After every op the loop runs to quiescence and the manager is looked at through EVERY public reader."""
+
+
+def gen_table_case(rng):
+    ops = []
+    nw = 0
+    for _ in range(rng.randint(2, 14)):
+        r = rng.random()
+        n = rng.randrange(3)
+        if r < 0.12:
+            ops.append(f"ce:{n}")
+        elif r < 0.2:
+            ops.append(f"se:{n}")
+        elif r < 0.38:
+            ops.append(f"{rng.choice(['st', 'sn'])}:{n}:{rng.randrange(0, 5)}")
+        elif r < 0.48:
+            items = [(rng.randrange(3), rng.randrange(0, 5)) for _ in range(rng.choice([0, 1, 2, 3]))]
+            d = {}
+            for k, v in items:
+                d[k] = v
+            ops.append(rng.choice(["ld", "la"]) + ":" + (",".join(f"{k}={v}" for k, v in d.items()) or "-"))
+        elif r < 0.8:
+            ops.append(f"w:{n}:{rng.choice('tu')}:{rng.choice('gw')}")
+            nw += 1
+        elif r < 0.92:
+            ops.append("adv")
+        elif nw:
+            ops.append(f"ca:{rng.randrange(nw)}")
+    return ops
+
+
+def run_table_case(loop, ops):
+    """-> (model words, observed snapshots)"""
+    em = EventManager()
+    ev_ids = {}          # id(Event object) -> order of first sight
+    keep = []            # keep the Event objects alive (ids must stay unique)
+    waiters = []
+    words, snaps = [], []
+    anomalies = []
+    returned = {}
+
+    def see_events():
+        for name, ev in em.events.items():
+            if id(ev) not in ev_ids:
+                ev_ids[id(ev)] = len(ev_ids)
+                keep.append(ev)
+
+    for op in ops:
+        w = op.split(":")
+        if w[0] == "ce":
+            ev = em.create_event(int(w[1]))
+            see_events()
+            returned.setdefault(int(w[1]), ev)
+            if returned[int(w[1])] is not ev:
+                anomalies.append(f"create_event({w[1]}) returned another object than the first time")
+            words.append(op)
+        elif w[0] == "se":
+            em.set_event(int(w[1]))
+            words += [op]
+        elif w[0] in ("st", "sn"):
+            if w[0] == "st":
+                loop.create_task(em.dispatch(int(w[1]), int(w[2]) - SHIFT))
+            else:
+                em.dispatch_nowait(int(w[1]), int(w[2]) - SHIFT)
+            words.append(f"st:{w[1]}:{w[2]}")
+        elif w[0] in ("ld", "la"):
+            d = {} if w[1] == "-" else {int(kv.split("=")[0]): int(kv.split("=")[1]) - SHIFT for kv in w[1].split(",")}
+            if w[0] == "la":
+                loop.create_task(em.load(d))
+            else:
+                em.load_nowait(d)
+            words.append("ld:" + w[1])
+        elif w[0] == "w":
+            n, timed, getter = int(w[1]), w[2] == "t", w[3] == "g"
+            coro = (em.get if getter else em.wait_for)(n, timeout=1.0 if timed else None)
+            waiters.append(loop.create_task(coro))
+            words.append(op)
+        elif w[0] == "adv":
+            loop.settle(until=loop.time() + 2.0)
+            words.append("exall")
+        elif w[0] == "ca":
+            waiters[int(w[1])].cancel()
+            words.append(op)
+        loop.settle()
+        see_events()
+        words += ["rsall", "snap"]
+        ev = ",".join(f"{n}:{ev_ids[id(e)]}:{1 if e.is_set() else 0}" for n, e in sorted(em.events.items()))
+        da = ",".join(f"{n}={v + SHIFT}" for n, v in sorted(em.data.items()))
+        ws = []
+        for t in waiters:
+            if not t.done():
+                ws.append("w")
+            elif t.cancelled():
+                ws.append("C")
+            elif t.exception() is not None:
+                e = t.exception()
+                ws.append("T" if isinstance(e, asyncio.TimeoutError) else "K" if isinstance(e, KeyError) else "!" + type(e).__name__)
+            else:
+                ws.append("rN" if t.result() is None else f"r{t.result() + SHIFT}")
+        snaps.append(f"E{ev};D{da};W{','.join(ws)}")
+        # every public reader of the stored data agrees with `data`
+        for n in range(3):
+            want = em.data.get(n, "absent")
+            got_nowait = em.get_nowait(n, "absent")
+            if got_nowait != want:
+                anomalies.append(f"get_nowait({n}) = {got_nowait!r}, data holds {want!r}")
+            try:
+                attr = em.__getattr__(n)
+            except AttributeError:
+                attr = "absent"
+            if attr != want:
+                anomalies.append(f"attribute access {n} = {attr!r}, data holds {want!r}")
+        if em.events is not em.events:
+            anomalies.append("the events attribute is not one table")
+    for t in waiters:
+        if not t.done():
+            t.cancel()
+    em.cancel_tasks()
+    loop.settle()
+    return words, snaps, anomalies
+
+
+def check_table(res, cases):
+    with LoopCtx() as loop:
+        runs = [run_table_case(loop, ops) for ops in cases]
+    answers = driver_batch(" ".join(["c13ev"] + words) for words, _, _ in runs)
+    for ops, (words, snaps, anomalies), ans in zip(cases, runs, answers):
+        text = "table " + " ".join(ops)
+        inp = dict(case=text, label="table")
+        model = [] if ans == "." else ans.split(" | ")
+        kinds = set(o.split(":")[0] for o in ops)
+        res.case(text, len(kinds) >= 3 and any("r" in s_.split(";W")[1] for s_ in snaps))
+        for k in kinds:
+            res.count("event table op: " + dict(ce="create_event", se="set_event", st="await dispatch", sn="dispatch_nowait", ld="load_nowait",
+                                                la="await load", w="get / wait_for task", adv="clock moves past the deadlines", ca="waiter cancelled")[k])
+        if any(s_.split(";W")[1].count("T") and i + 1 < len(snaps) for i, s_ in enumerate(snaps)):
+            res.count("event table: history goes on after a timed-out wait")
+        if any("K" in s_.split(";W")[1] for s_ in snaps):
+            res.count("event table: get() after a bare set_event raises KeyError")
+        if anomalies:
+            res.fail("spec", inp, "one Event per name for the manager's lifetime; every reader of the stored data agrees with data", anomalies,
+                     "event table / stored data seen through the public readers")
+        # the statement, directly: a getter never returns a value that was not the outcome of some dispatch (or load) for that name
+        stored = {}
+        names = []
+        for op in ops:
+            w = op.split(":")
+            if w[0] in ("st", "sn"):
+                stored.setdefault(int(w[1]), set()).add(int(w[2]))
+            elif w[0] in ("ld", "la") and w[1] != "-":
+                for kv in w[1].split(","):
+                    stored.setdefault(int(kv.split("=")[0]), set()).add(int(kv.split("=")[1]))
+            elif w[0] == "w":
+                names.append((int(w[1]), w[3] == "g"))
+        bad = []
+        for j, (n, getter) in enumerate(names):
+            fin = snaps[-1].split(";W")[1].split(",")[j]
+            if getter and fin.startswith("r") and (fin == "rN" or int(fin[1:]) not in stored.get(n, ())):
+                bad.append(f"get({n}) returned {fin[1:]} which no dispatch / load stored for that name")
+        if bad:
+            res.fail("spec", inp, "values returned by get() are outcomes of dispatches", bad, "a getter never returns a value that was not the outcome of some dispatch")
+        if model != snaps:
+            k = next((i for i, (a, b) in enumerate(zip(model, snaps)) if a != b), min(len(model), len(snaps)))
+            # a waiter left waiting for ever although a value was stored after it started, or an Event that vanished: statement-level
+            res.fail("spec" if "W" in "".join(snaps[k:k + 1]) and model[k:k + 1] and model[k].split(";W")[1] != snaps[k].split(";W")[1] else "corr",
+                     inp, model[k:k + 1], snaps[k:k + 1],
+                     f"event table machine and EventManager differ after op #{k} ({ops[k] if k < len(ops) else '?'}): events (name:object:set) ; data ; waiter states")
+
+
+
 class LoopCtx:
     def __enter__(self):
         self.loop = vloop.new_loop()
@@ -842,7 +1015,7 @@ def run(ctx):
     with LoopCtx() as loop:
         for fn, ln in load_corpus("C13"):
             w = ln.split()
-            if w[0] in ("fr", "chain"):
+            if w[0] in ("fr", "chain", "table"):
                 continue
             scripts = parse_scripts(w[0])
             im = replay_history(loop, scripts, w[1:])
@@ -882,6 +1055,9 @@ def run(ctx):
         fcases += [gen_fr(rng) for _ in range(1500 if quick else 30000)]
         fcases += [gen_chain(rng) for _ in range(1500 if quick else 30000)]
         check_filtered(res, fcases)
+        tcases = [ln.split()[1:] for _, ln in load_corpus("C13") if ln.split()[0] == "table"]
+        tcases += [gen_table_case(rng) for _ in range(1200 if quick else 30000)]
+        check_table(res, tcases)
     res.exhaustive = False
     if not quick:
         res.extra["enumerated_alphabet"] = ALPHABET
@@ -898,6 +1074,9 @@ def replay(ctx):
     w = f["input"]["case"].split()
     if w[0] in ("fr", "chain"):
         check_filtered(res, [parse_fcase(f["input"]["case"])])
+        return res
+    if w[0] == "table":
+        check_table(res, [w[1:]])
         return res
     scripts = parse_scripts(w[0])
     with LoopCtx() as loop:
